@@ -4,12 +4,13 @@
    Vocabulary (defined in Proofs/ValidateProofs.v):
      single_change b i b'     b' is b with exactly the byte at index i replaced by another byte value
      reports n                validate n = Ok l with l <> []   (validate = Model/Validate.v, with the
-                              repaired body-checksum check of fixes/C09-validate-body-checksum.diff)
+                              two repairs fixes/C09-validate-body-checksum.diff and C09-validate-free-space-erased.diff)
      file_at off files k      the k-th file of a volume and its offset (8-aligned, first at the data offset)
      fv_hdr_extent b          end of what the volume-header parse reads: HeaderLen and the extended header
      prot_hdr large j         j in 0..16 or 18..22, or 24..31 for a large file (the checksummed header bytes)
      becomes_free_marker fb   fb reads as the start of the volume free space: size FFFFFF, at least 32
                               bytes, extended size FFFFFFFFFFFFFFFF
+     validate_gen false       the pinned validate (before both patches of fixes/C09-*.diff)
    "parse fails or validate reports" is stated as: for every r, parse b' = Ok r -> reports (fst r). *)
 From Fiano Require Import Base.Bytes Gen.Consts Model.Ffs Model.Validate Proofs.ValidateProofs.
 Open Scope Z_scope.
@@ -39,32 +40,36 @@ Theorem C09_file_header_detects :
   parse_fv dec u2s nvar (S (S d)) pol b fvoff res = Ok (NVol h buf kids, pol') ->
   validate (NVol h buf kids) = Ok [] -> bytes_ok b = true -> fv_hdr_extent b <= v_dataoff h ->
   file_at (v_dataoff h) kids k = Some (NFile fh fb fk, o) ->
+  zlen b < 2 ^ 55 ->
   prot_hdr (attr_large (f_attr fh)) j -> single_change b (o + j) b' ->
-  ~ becomes_free_marker (sub o (v_length h - o) b') ->
   forall r, parse_fv dec u2s nvar (S (S d)) pol b' fvoff res = Ok r -> reports (fst r).
 Proof. exact thm_file_header_detects. Qed.
 Print Assumptions C09_file_header_detects.
 
-(* the side condition is needed: a 0xFFFF-byte raw file whose body starts with eight FF bytes,
-   followed by a second file; raising size byte 22 of the first header from 00 to FF makes both files
-   vanish, the image still parses and validate reports nothing (known-finding candidate) *)
-Theorem C09_file_header_free_marker_refuted :
+(* without the free-space check of fixes/C09-validate-free-space-erased.diff the theorem needs a side
+   condition (DESIGN section 6 #9): a 0xFFFF-byte raw file whose body starts with eight FF bytes,
+   followed by a second file; raising size byte 22 of the first header from 00 to FF turns the header
+   into the free-space marker, both files vanish, the image still parses and the pinned validate
+   ([validate_gen false]) reports nothing; the repaired validate reports the unerased free space *)
+Theorem C09_pinned_free_marker_miss_refuted :
   exists b b' h buf kids fh fb fk,
     parse_fv dec0 u2s0 nvar0 3 240 b 0 false = Ok (NVol h buf kids, 255) /\
-    validate (NVol h buf kids) = Ok [] /\ bytes_ok b = true /\ fv_hdr_extent b <= v_dataoff h /\
+    validate_gen false (NVol h buf kids) = Ok [] /\ validate (NVol h buf kids) = Ok [] /\
+    bytes_ok b = true /\ fv_hdr_extent b <= v_dataoff h /\
     length kids = 2%nat /\
     file_at (v_dataoff h) kids 0 = Some (NFile fh fb fk, 72) /\
     prot_hdr (attr_large (f_attr fh)) 22 /\
     single_change b (72 + 22) b' /\
     becomes_free_marker (sub 72 (v_length h - 72) b') /\
     exists h' buf', parse_fv dec0 u2s0 nvar0 3 240 b' 0 false = Ok (NVol h' buf' [], 255) /\
-                    validate (NVol h' buf' []) = Ok [].
+                    validate_gen false (NVol h' buf' []) = Ok [] /\
+                    validate (NVol h' buf' []) = Ok [V_FV_FREESPACE].
 Proof. exact free_marker_witness. Qed.
-Print Assumptions C09_file_header_free_marker_refuted.
+Print Assumptions C09_pinned_free_marker_miss_refuted.
 
-(* the exact input class of the side condition: a size byte raised to FF while the other two already
-   are FF, in a file without the large attribute (hence at least 0xFFFF bytes long) whose first
-   eight body bytes are FF *)
+(* the exact input class in which a header change yields the marker: a size byte raised to FF while
+   the other two already are FF, in a file without the large attribute (hence at least 0xFFFF bytes
+   long) whose first eight body bytes are FF *)
 Theorem C09_free_marker_class :
   forall nvar rs pol fb fb' j h fbuf kids pol',
   file_body nvar rs pol fb = Ok (Some (NFile h fbuf kids), pol') ->
@@ -101,10 +106,12 @@ Print Assumptions C09_bodysum_detects.
 Theorem C09_file_header_detects_local :
   forall nvar rs nvar2 rs2 pol pol2 fb fb' j h fbuf kids pol',
   file_body nvar rs pol fb = Ok (Some (NFile h fbuf kids), pol') ->
-  validate_file h fbuf = Ok [] ->
-  single_change fb j fb' -> prot_hdr (attr_large (f_attr h)) j -> ~ becomes_free_marker fb' ->
-  forall r, file_body nvar2 rs2 pol2 fb' = Ok r -> exists f', fst r = Some f' /\ reports f'.
-Proof. exact file_header_detects_local. Qed.
+  validate_file h fbuf = Ok [] -> bytes_ok fb = true -> zlen fb < 2 ^ 55 ->
+  single_change fb j fb' -> prot_hdr (attr_large (f_attr h)) j ->
+  forall r, file_body nvar2 rs2 pol2 fb' = Ok r ->
+  (exists f', fst r = Some f' /\ reports f') \/
+  (fst r = None /\ forall P, P = 0 \/ P = 255 -> forallb (fun x => x =? P) fb' = false).
+Proof. exact file_header_detects_local2. Qed.
 Print Assumptions C09_file_header_detects_local.
 
 Theorem C09_body_detects_local :
@@ -156,9 +163,11 @@ Proof. exact no_false_alarm_section. Qed.
 Print Assumptions C09_no_false_alarm_section.
 
 (* a volume rebuilt by Assemble. Revision, signature, GUID and the HeaderLen/block-map relation are
-   copied from the input volume, so they are hypotheses about it. *)
+   copied from the input volume, so they are hypotheses about it; [pol] is the erase polarity the
+   assembler fills with, which Assemble takes from the volume's attributes. *)
 Theorem C09_no_false_alarm_volume : forall pol ffs3 h buf files h' nb,
   asm_vol pol ffs3 h buf files = Ok (h', nb) -> files <> [] -> v_resizable h = false ->
+  pol = fv_polarity (v_attrs h) -> zlen nb < 2 ^ 63 ->
   v_hdrlen h = 56 + 8 * (zlen (v_blocks h) + 1) -> v_rev h = 2 -> v_sig h = c09_fv_signature ->
   known_fv_guid (v_guid h) = true ->
   validate_vol h' nb = Ok [].
@@ -169,6 +178,7 @@ Print Assumptions C09_no_false_alarm_volume.
 Theorem C09_no_false_alarm_volume_any : forall pol ffs3 h buf files h' nb,
   asm_vol pol ffs3 h buf files = Ok (h', nb) -> files <> [] ->
   (forall c s rest, v_blocks h = (c, s) :: rest -> 0 < s < 2 ^ 32) -> zlen nb < 2 ^ 63 ->
+  pol = fv_polarity (v_attrs h) ->
   v_hdrlen h = 56 + 8 * (zlen (v_blocks h) + 1) -> v_rev h = 2 -> v_sig h = c09_fv_signature ->
   known_fv_guid (v_guid h) = true ->
   validate_vol h' nb = Ok [].
@@ -249,7 +259,7 @@ Definition ex_errors (b : bytes) : option (list Z) :=
 
 Example ex_detections :
   ex_errors ex_vol = Some [] /\
-  ex_errors (splice 45 [0] ex_vol) = Some [V_FV_CKSUM] /\       (* attributes (the erase-polarity bit) *)
+  ex_errors (splice 45 [0] ex_vol) = Some [V_FV_CKSUM; V_FV_FREESPACE] /\   (* attributes (the erase-polarity bit) *)
   ex_errors (splice 48 [74] ex_vol) = None /\                   (* HeaderLen: files no longer parse *)
   ex_errors (splice 48 [70] ex_vol) = Some [V_FV_HDRBLOCKS; V_FV_CKSUM] /\   (* HeaderLen, still parses *)
   ex_errors (splice 60 [1] ex_vol) = Some [V_FV_CKSUM] /\        (* block map *)
